@@ -212,6 +212,45 @@ def run(seed, tier, driver):
             res.fail('C06', 'decode(construct(m)) != m',
                      {'msg': m, 'asn4': asn4, 'addpath': addpath, 'hex': wire.hex(), 'decoded': got, 'expected': exp})
 
+    # ---- EXTENDED COMMUNITIES inside an UPDATE (C06 names them; the per-kind encodings are C17's subject): a list of
+    # communities of different kinds decodes element by element - what a community decodes to does not depend on its
+    # neighbours.  Implementation only (attribute 16 is outside the Lean UPDATE model).
+    XC = ['0002fde900000064', '0003fde900000065', '01020a0000010064', '01030a0000010065', '0202fa56ea00ffff', '0203fa56ea000001',
+          '030b000000000064', '030c000000000008', '8008fde900000064', '80060000447a0000', '800700000000000' + '3', '8009000000000028',
+          '0600000001000007', '0601010000000190', '0602001122334455', '0603aabbccddeeff', '4004fde9447a0000']
+    XC = [bytes.fromhex(x) for x in XC]
+
+    def upd_with_xc(v):
+        attrs = bytes.fromhex('40010100' '400200' '4003040a000001') + bytes([0xc0, 16, len(v)]) + v
+        return struct.pack('!H', 0) + struct.pack('!H', len(attrs)) + attrs + b'\x18\x0a\x00\x00'
+
+    def xc_of(body):
+        from yabgp.message.update import Update
+        from lib.base import with_budget
+        st, v = with_budget(5.0, Update().parse, None, body, True, {})
+        if st != 'ok' or v.get('sub_error'):
+            return ('bad', st, None if st != 'ok' else v.get('sub_error'))
+        return v['attr'].get(16)
+    singles = [xc_of(upd_with_xc(x)) for x in XC]
+    lists = [[i, j] for i in range(len(XC)) for j in range(len(XC)) if i != j]
+    lists += [r.sample(range(len(XC)), r.choice([3, 4, 6])) for _ in range(40 if tier == 'quick' else 2000)]
+    if tier == 'quick':
+        lists = r.sample(lists, 160)
+    for idx in lists:
+        got = xc_of(upd_with_xc(b''.join(XC[i] for i in idx)))
+        want = []
+        ok = True
+        for i in idx:
+            if not isinstance(singles[i], list):
+                ok = False
+                break
+            want += singles[i]
+        res.stats.case(('xc-list', tuple(idx)), sample=None)
+        res.stats.hit('extcommunity_list_in_update')
+        if ok and got != want:
+            res.fail('C06', 'EXTENDED_COMMUNITIES in an UPDATE: the list does not decode to the values of its elements',
+                     {'communities': [XC[i].hex() for i in idx], 'decoded': repr(got), 'elementwise': repr(want)}, key='extcommunity-list')
+
     # ---- parse correspondence
     pcases = parse_inputs(r, tier, corpus)
     reqs = [{'op': 'upd.parse', 'asn4': a, 'addpath': ap, 'hex': b.hex()} for (b, a, ap) in pcases]
